@@ -7,6 +7,7 @@ import (
 	"strings"
 
 	pipeline "github.com/buildkite/go-pipeline"
+	"github.com/buildkite/go-pipeline/ordered"
 	"github.com/buildkite/go-pipeline/signature"
 	"github.com/buildkite/go-pipeline/warning"
 
@@ -23,9 +24,24 @@ func init() { register("C02", checkC02) }
 // step still verifies after each serialisation and re-parse. It returns ""
 // if the property holds; refused reports that SignSteps refused (unknown step).
 func c02Run(c *run.Ctx, text string, interp bool, kp *keys.Pair, reps int, envOverride map[string]string) (what string, extra map[string]any, refused bool) {
+	return c02RunOdd(c, text, interp, kp, reps, envOverride, false)
+}
+
+// c02RunOdd: with oddEnv the pipeline env block also holds a variable without a name (what a name that expands to
+// nothing leaves behind) and names with '=', ':' and the namespace prefix itself - mapping keys like any other.
+func c02RunOdd(c *run.Ctx, text string, interp bool, kp *keys.Pair, reps int, envOverride map[string]string, oddEnv bool) (what string, extra map[string]any, refused bool) {
 	p, perr := parseText(text)
 	if perr != nil && !warning.Is(perr) {
 		return "well-formed document rejected: " + perr.Error(), nil, false
+	}
+	if oddEnv {
+		if p.Env == nil {
+			p.Env = ordered.NewMap[string, string](0)
+		}
+		p.Env.Set("", "the variable without a name")
+		p.Env.Set("FLAGS=FAST", "y")
+		p.Env.Set("env::", "named like the prefix")
+		p.Env.Set("a:b", "z")
 	}
 	if interp {
 		em := c04Env()
@@ -261,7 +277,11 @@ func checkC02(c *run.Ctx) {
 			rd = rs[0]
 		}
 		id := run.CaseID("doc", i)
-		what, extra, refused := c02Run(c, rd.Text, interp, kp, 3, nil)
+		oddEnv := mix(i, 10, 5) == 0
+		if oddEnv {
+			c.Count("documents_with_unnamed_and_oddly_named_pipeline_variables", 1)
+		}
+		what, extra, refused := c02RunOdd(c, rd.Text, interp, kp, 3, nil, oddEnv)
 		c.Eval(1)
 		if what != "" {
 			m := map[string]any{"what": what, "style": rd.Style, "document": clip(rd.Text, 8000), "key_kind": kind, "interpolated": interp}
